@@ -21,11 +21,16 @@ var graphs = []string{
 	"[<[t]><[t]>]",
 }
 
-// boundRanges: ranges of width <= 3 starting within [-2,3] (before, inside and beyond the lists of
+// boundRanges: ranges of width <= 3 or > 1024 starting within [-2,3] (before, inside and beyond the lists of
 // the graphs): the enumeration of a range's indices is a loop with a symbolic trip count.
 func boundRanges(s *selgen.Sel) {
 	if s.Op == 'r' {
-		nd.Assume(s.Start >= -2 && s.Start <= 3 && s.End > s.Start && s.End-s.Start <= 3)
+		// narrow ranges are enumerated index by index (a loop with a symbolic trip count, so the
+		// width is bounded); ranges wider than the enumeration limit take the other code path
+		// and may end anywhere
+		w := uint64(s.End) - uint64(s.Start)
+		nd.Assume(s.Start >= -2 && s.Start <= 3 && s.End > s.Start)
+		nd.Assume(nd.Or(w <= 3, w > 1024))
 	}
 	if s.Op == '.' && s.Subset {
 		nd.Assume(s.To < 0 || s.From <= s.To) // what a valid document may say
